@@ -275,6 +275,32 @@ def enum_members(it, cls: ClassInfo) -> list:
     return _ENUM_MEMBERS[cls.qualname]
 
 
+class PropertyObj(AbsVal):
+    """property(fget, fset, fdel, doc) built at run time (e.g. by a package decorator)."""
+
+    def __init__(self, fget=None, fset=None, fdel=None):
+        self.fget, self.fset, self.fdel = fget, fset, fdel
+
+    def __repr__(self):
+        return "<property>"
+
+    def get_attr(self, it, name):
+        if name in ("fget", "fset", "fdel"):
+            return getattr(self, name)
+        if name == "__doc__":
+            return Unknown("doc", "str")
+        return NotImplemented
+
+    def call_method(self, it, name, args, kwargs):
+        if name == "setter":
+            return PropertyObj(self.fget, args[0], self.fdel)
+        if name == "getter":
+            return PropertyObj(args[0], self.fset, self.fdel)
+        if name in ("__deepcopy__", "__copy__"):
+            return self
+        return NotImplemented
+
+
 class Sentinel(AbsVal):
     """A unique object() used as a marker (identity semantics)."""
 
@@ -1154,6 +1180,16 @@ class Interp:
                 d.items = v.attrs          # a live view: updates through it change the object
                 return d
             m = v.cls.find_method(name)
+            if m is not None and getattr(m, "custom_decorators", None):
+                dv = self.decorated_member(m)
+                if isinstance(dv, PropertyObj):
+                    if dv.fget is None:
+                        self.raise_builtin("AttributeError", f"unreadable attribute {name}", node=node)
+                    return self.call_value(dv.fget, [v], {})
+                if isinstance(dv, AFunc):
+                    return AFunc(dv.fi, dv.node, dv.module, self_val=v, closure=dv.closure, cls=dv.cls or m.cls)
+                if dv is not None:
+                    return dv
             if m is not None:
                 if m.is_property:
                     return self.call_function(AFunc(m, m.node, m.module, self_val=v, cls=m.cls), [], {})
@@ -1208,6 +1244,22 @@ class Interp:
         if isinstance(v, (int, float, bool)) and not hasattr(v, name):
             self.raise_builtin("AttributeError", f"'{type(v).__name__}' object has no attribute '{name}'", node=node)
         return BoundBuiltin(v, name)
+
+    def decorated_member(self, m: FuncInfo):
+        """What a method definition with package-defined decorators binds its name to (decorators applied bottom-up, once per run)."""
+        k = ("decorated", m.qualname)
+        if k not in self._clsattrs:
+            val: Any = AFunc(m, m.node, m.module, cls=m.cls)
+            try:
+                for d in reversed(m.custom_decorators):
+                    dv = self.ev_in_module(m.module, d)
+                    if isinstance(dv, (Unknown, BuiltinFn, BuiltinType)) or dv is None:
+                        continue
+                    val = self.call_value(dv, [val], {})
+            except Unsupported:
+                val = None
+            self._clsattrs[k] = val
+        return self._clsattrs[k]
 
     def class_attr(self, c: ClassInfo, name: str):
         """The value of a class-level attribute: evaluated once per run, so that a mutable one (a dict / list declared in the class
@@ -1318,7 +1370,7 @@ class Interp:
         if getattr(fr, "yields", None) is None:
             raise Unsupported("yield outside a generator function")
         fr.yields.append(self.ev(e.value) if e.value is not None else None)
-        if len(fr.yields) > self.MAX_LOOP:
+        if len(fr.yields) > 20000:
             raise LoopBound("generator yields without bound")
         return None
 
@@ -1701,6 +1753,14 @@ class Interp:
             if r is not NotImplemented:
                 return
         if isinstance(base, AObj):
+            m0 = base.cls.find_method(name)
+            if m0 is not None and getattr(m0, "custom_decorators", None):
+                dv = self.decorated_member(m0)
+                if isinstance(dv, PropertyObj):
+                    if dv.fset is None:
+                        self.raise_builtin("AttributeError", f"property '{name}' of '{base.cls.name}' object has no setter", node=node)
+                    self.call_value(dv.fset, [base, v], {})
+                    return
             setter = base.cls.find_setter(name)
             if setter is not None:
                 self.call_function(AFunc(setter, setter.node, setter.module, self_val=base, cls=setter.cls), [v], {})
@@ -2145,7 +2205,7 @@ class SuperProxy(AbsVal):
         return BoundBuiltin(self, name)
 
 
-BUILTIN_FUNCS = {"divmod", "pow", "round", "bin", "hex", "oct", "format", "ascii", "len", "isinstance", "issubclass", "sorted", "enumerate", "zip", "range", "max", "min", "any", "all",
+BUILTIN_FUNCS = {"property", "divmod", "pow", "round", "bin", "hex", "oct", "format", "ascii", "len", "isinstance", "issubclass", "sorted", "enumerate", "zip", "range", "max", "min", "any", "all",
                  "getattr", "hasattr", "setattr", "next", "iter", "deepcopy", "copy", "print", "repr", "id", "open", "abs",
                  "reversed", "sum", "callable", "map", "filter", "super", "vars", "hash", "ord", "chr"}
 
@@ -2484,6 +2544,9 @@ def call_builtin(it: Interp, name, args, kwargs, node=None):
         return abs(args[0])
     if name == "callable":
         return isinstance(args[0], (AFunc, AClass, BuiltinFn, BoundBuiltin, BuiltinType)) or (callable(args[0]) and not isinstance(args[0], AbsVal))
+    if name == "property":
+        a_ = list(args) + [None] * 3
+        return PropertyObj(kwargs.get("fget", a_[0]), kwargs.get("fset", a_[1]), kwargs.get("fdel", a_[2]))
     if name == "vars" and len(args) == 1 and isinstance(args[0], AObj):
         return it.get_attr(args[0], "__dict__")
     if name in ("chr", "divmod", "pow", "round", "bin", "hex", "oct", "format", "ascii") and args and all(isinstance(a, (int, float, str)) for a in args) and not kwargs:
